@@ -1,3 +1,424 @@
 import Econf.KeyFileOps
+
+/-!
+  C11 — the set/get/list API behaves as an ordered map from (section, key) to text.
+
+  `OMap` is the reference: an insertion-ordered association list plus the list of registered
+  section names.  `abs` maps a model object to it; every operation of the model commutes with
+  `abs` and returns what the reference returns (`C11_step`), hence so does every operation
+  sequence of any length from any starting object (`C11_refines`).  The algebraic laws users
+  rely on (`C11_get_set_same`, `C11_get_set_other`, `C11_keys_set`) are proved on the model
+  directly.
+-/
+
+set_option linter.unusedSimpArgs false
+
 namespace Econf
+
+/-! ### reference ordered map -/
+
+abbrev GK := Str × Str
+
+structure OMap where
+  items : List (GK × Option Str) := []
+  sections : List Str := []
+  deriving DecidableEq, Repr
+
+def OMap.get (m : OMap) (gk : GK) : Option (Option Str) := (m.items.find? (fun p => p.1 == gk)).map (·.2)
+
+def replaceFirst (gk : GK) (v : Str) : List (GK × Option Str) → List (GK × Option Str)
+  | [] => []
+  | p :: ps => if p.1 == gk then (gk, some v) :: ps else p :: replaceFirst gk v ps
+
+/-- a set creates or replaces exactly one entry; a new section is registered behind the others -/
+def OMap.set (m : OMap) (gk : GK) (v : Str) : OMap :=
+  if (m.get gk).isSome then { m with items := replaceFirst gk v m.items }
+  else { items := m.items ++ [(gk, some v)], sections := addGroup (addGroup m.sections NONE) gk.1 }
+
+def OMap.keys (m : OMap) (g : Str) : List Str := (m.items.filter (fun p => p.1.1 == g)).map (·.1.2)
+
+def OMap.sectionList (m : OMap) : List Str := m.sections.filter (· != NONE)
+
+/-- abstraction of a model object -/
+def abs (kf : KeyFile) : OMap :=
+  { items := kf.entries.map (fun e => ((e.group, e.key), e.value)), sections := kf.groups }
+
+/-! ### helper lemmas -/
+
+theorem gk_beq (a b c d : Str) : (((a, b) : GK) == (c, d)) = (a == c && b == d) := rfl
+
+theorem find_abs (es : List Entry) (g k : Str) :
+    ((es.map (fun e => ((e.group, e.key), e.value))).find? (fun p => p.1 == (g, k))).map (·.2) =
+      (es.find? (fun e => e.group == g && e.key == k)).map (·.value) := by
+  induction es with
+  | nil => rfl
+  | cons e es ih =>
+    simp only [List.map_cons, List.find?_cons, gk_beq]
+    cases hc : (e.group == g && e.key == k)
+    · exact ih
+    · rfl
+
+theorem findIdx_isSome (es : List Entry) (g k : Str) :
+    (findIdx es g k).isSome = (es.find? (fun e => e.group == g && e.key == k)).isSome := by
+  unfold findIdx
+  induction es with
+  | nil => rfl
+  | cons e es ih =>
+    simp only [List.findIdx?_cons, List.find?_cons]
+    cases hc : (e.group == g && e.key == k)
+    · simp only [Bool.false_eq_true, if_false, Option.isSome_map]; exact ih
+    · rfl
+
+theorem findIdx_get (es : List Entry) (g k : Str) :
+    ((findIdx es g k).bind (fun i => (es[i]?).bind (·.value))) =
+      ((es.find? (fun e => e.group == g && e.key == k)).bind (·.value)) := by
+  unfold findIdx
+  induction es with
+  | nil => rfl
+  | cons e es ih =>
+    simp only [List.findIdx?_cons, List.find?_cons]
+    cases h : (e.group == g && e.key == k)
+    · simp only [Bool.false_eq_true, if_false]
+      cases hh : List.findIdx? (fun e => e.group == g && e.key == k) es with
+      | none => rw [hh] at ih; simpa using ih
+      | some i => rw [hh] at ih; simpa using ih
+    · simp
+theorem setFirst_abs (es : List Entry) (g k v : Str) :
+    ((setFirst g k v es).getD es).map (fun e => ((e.group, e.key), e.value)) =
+      replaceFirst (g, k) v (es.map (fun e => ((e.group, e.key), e.value))) := by
+  induction es with
+  | nil => rfl
+  | cons e es ih =>
+    unfold setFirst
+    simp only [List.map_cons, replaceFirst]
+    rw [gk_beq]
+    cases h : (e.group == g && e.key == k)
+    · simp only [Bool.false_eq_true, if_false]
+      cases hs : setFirst g k v es with
+      | none => rw [hs] at ih; simpa using ih
+      | some l => rw [hs] at ih; simpa using ih
+    · simp only [if_true, Option.getD_some, List.map_cons]
+      simp only [Bool.and_eq_true, beq_iff_eq] at h
+      simp [h.1, h.2]
+
+/-! ### the operations commute with the abstraction -/
+
+/-- set with a valid key -/
+theorem C11_set (kf : KeyFile) (g : Option Str) (k v : Str) (hk : k ≠ []) :
+    abs (setValue kf g (some k) (.ok v)).1 = (abs kf).set (normGroup g, k) v ∧
+    (setValue kf g (some k) (.ok v)).2 = .success := by
+  have hke : k.isEmpty = false := by cases k <;> simp_all
+  unfold setValue
+  simp only [hke, Bool.false_eq_true, if_false]
+  have hsome : ((abs kf).get (normGroup g, k)).isSome = (findIdx kf.entries (normGroup g) k).isSome := by
+    unfold OMap.get abs
+    rw [find_abs, findIdx_isSome]; simp
+  unfold OMap.set
+  rw [hsome]
+  cases hf : (findIdx kf.entries (normGroup g) k).isSome
+  · simp only [Bool.false_eq_true, if_false]
+    exact ⟨by simp [abs, freshEntry], by first | rfl | trivial⟩
+  · simp only [if_true]
+    refine ⟨?_, by first | rfl | trivial⟩
+    simp only [abs]
+    rw [setFirst_abs]
+
+/-- string getter with a valid key: the text last set, or key-not-found -/
+theorem C11_get (kf : KeyFile) (g : Option Str) (k : Str) (hk : k ≠ []) :
+    getString kf g (some k) =
+      match (abs kf).get (normGroup g, k) with
+      | some v => .ok v
+      | none => .error .nokey := by
+  have hke : k.isEmpty = false := by cases k <;> simp_all
+  unfold getString findKey
+  simp only [hke, Bool.false_eq_true, if_false]
+  have hget : (abs kf).get (normGroup g, k) =
+      (kf.entries.find? (fun e => e.group == normGroup g && e.key == k)).map (·.value) := by
+    unfold OMap.get abs; exact find_abs _ _ _
+  rw [hget]
+  have h1 := findIdx_isSome kf.entries (normGroup g) k
+  have h2 := findIdx_get kf.entries (normGroup g) k
+  cases hi : findIdx kf.entries (normGroup g) k with
+  | none =>
+    rw [hi] at h1
+    cases hf : kf.entries.find? (fun e => e.group == normGroup g && e.key == k) with
+    | none => rfl
+    | some e => rw [hf] at h1; simp at h1
+  | some i =>
+    rw [hi] at h1 h2
+    cases hf : kf.entries.find? (fun e => e.group == normGroup g && e.key == k) with
+    | none => rw [hf] at h1; simp at h1
+    | some e =>
+      rw [hf] at h2
+      simp only [Option.bind_some] at h2
+      simp only [Option.map_some]
+      rw [h2]
+
+/-- key listing -/
+theorem C11_keys (kf : KeyFile) (g : Option Str) :
+    getKeys kf g = if ((abs kf).keys (rawGroup g)).isEmpty then .error .nokey else .ok ((abs kf).keys (rawGroup g)) := by
+  unfold getKeys OMap.keys abs
+  simp only [List.filter_map, List.map_map]
+  rfl
+
+/-- section listing -/
+theorem C11_groups (kf : KeyFile) :
+    getGroups kf = if (abs kf).sections.isEmpty then .error .nogroup else .ok (abs kf).sectionList := rfl
+
+/-- refused calls (no key, empty key) have no effect -/
+theorem C11_refused (kf : KeyFile) (g : Option Str) (txt : Except Err Str) :
+    setValue kf g none txt = (kf, .emptykey) ∧ setValue kf g (some []) txt = (kf, .emptykey) := ⟨rfl, rfl⟩
+
+/-- a section name with or without surrounding brackets denotes the same section;
+    absent and empty names mean group-less -/
+theorem C11_brackets (a : Str) (h : RBR ∉ a) :
+    normGroup (some (LBR :: a ++ [RBR])) = normGroup (some a) ∧ normGroup none = NONE ∧ normGroup (some []) = NONE := by
+  refine ⟨?_, rfl, rfl⟩
+  have htw : (a ++ [RBR]).takeWhile (· != RBR) = a := by
+    induction a with
+    | nil => simp [RBR]
+    | cons x xs ih =>
+      have hx : x ≠ RBR := fun hh => h (by simp [hh])
+      have hxs : RBR ∉ xs := fun hh => h (by simp [hh])
+      simp [List.takeWhile_cons, hx, ih hxs]
+  have hlast : (LBR :: (a ++ [RBR])).getLast? = some RBR := by
+    rw [← List.cons_append, List.getLast?_append]; simp
+  have hstrip1 : stripBrackets (LBR :: (a ++ [RBR])) = a := by
+    unfold stripBrackets
+    simp [htw, hlast]
+  have hstrip2 : stripBrackets a = a := by
+    unfold stripBrackets
+    cases a with
+    | nil => rfl
+    | cons c cs =>
+      have : (c :: cs).getLast? ≠ some RBR := by
+        intro hh
+        have := List.mem_of_getLast? hh
+        exact h this
+      simp [this]
+  unfold normGroup
+  simp only [hstrip2]
+  rw [show (LBR :: a ++ [RBR]) = LBR :: (a ++ [RBR]) from rfl, hstrip1]
+
+/-! ### laws of the reference map, and their transfer -/
+
+theorem OMap.get_set_same (m : OMap) (gk : GK) (v : Str) : (m.set gk v).get gk = some (some v) := by
+  unfold OMap.set
+  cases h : (m.get gk).isSome
+  · simp only [Bool.false_eq_true, if_false]
+    unfold OMap.get at h ⊢
+    simp only [Option.isSome_map] at h
+    have hn : m.items.find? (fun p => p.1 == gk) = none := by
+      cases hh : m.items.find? (fun p => p.1 == gk) <;> simp_all
+    simp [List.find?_append, hn]
+  · simp only [if_true]
+    unfold OMap.get at h ⊢
+    simp only
+    generalize m.items = l at h
+    induction l with
+    | nil => simp at h
+    | cons p ps ih =>
+      simp only [replaceFirst]
+      cases hp : p.1 == gk
+      · simp only [Bool.false_eq_true, if_false, List.find?_cons, hp]
+        apply ih
+        simpa [List.find?_cons, hp] using h
+      · simp [List.find?_cons]
+
+theorem OMap.get_set_other (m : OMap) (gk gk' : GK) (v : Str) (hne : gk' ≠ gk) :
+    (m.set gk v).get gk' = m.get gk' := by
+  have hb : (gk == gk') = false := by simpa using (fun h => hne h.symm)
+  unfold OMap.set
+  cases h : (m.get gk).isSome
+  · simp only [Bool.false_eq_true, if_false]
+    unfold OMap.get
+    simp only [List.find?_append, List.find?_cons, hb]
+    cases m.items.find? (fun p => p.1 == gk') <;> simp
+  · simp only [if_true]
+    unfold OMap.get
+    simp only
+    generalize m.items = l
+    induction l with
+    | nil => rfl
+    | cons p ps ih =>
+      simp only [replaceFirst]
+      cases hp : p.1 == gk
+      · simp only [Bool.false_eq_true, if_false, List.find?_cons]
+        cases hp' : p.1 == gk'
+        · simpa using ih
+        · simp
+      · simp only [if_true, List.find?_cons, hb]
+        have : (p.1 == gk') = false := by
+          have := eq_of_beq hp
+          rw [this]; exact hb
+        simp [this]
+
+/-- a get returns the text last set -/
+theorem C11_get_set_same (kf : KeyFile) (g : Option Str) (k v : Str) (hk : k ≠ []) :
+    getString (setValue kf g (some k) (.ok v)).1 g (some k) = .ok (some v) := by
+  rw [C11_get _ _ _ hk, (C11_set kf g k v hk).1, OMap.get_set_same]
+
+/-- a set leaves every other (section, key) as it was -/
+theorem C11_get_set_other (kf : KeyFile) (g g' : Option Str) (k k' v : Str) (hk : k ≠ []) (hk' : k' ≠ [])
+    (hne : (normGroup g', k') ≠ (normGroup g, k)) :
+    getString (setValue kf g (some k) (.ok v)).1 g' (some k') = getString kf g' (some k') := by
+  rw [C11_get _ _ _ hk', C11_get _ _ _ hk', (C11_set kf g k v hk).1, OMap.get_set_other _ _ _ _ hne]
+
+/-- insertion order: a set of a new key appends it to the key list of its section, a set of an
+    existing key leaves every key list as it is -/
+theorem C11_keys_set (kf : KeyFile) (g : Option Str) (k v : Str) (hk : k ≠ []) (s : Str) :
+    (abs (setValue kf g (some k) (.ok v)).1).keys s =
+      if ((abs kf).get (normGroup g, k)).isSome then (abs kf).keys s
+      else if s = normGroup g then (abs kf).keys s ++ [k] else (abs kf).keys s := by
+  rw [(C11_set kf g k v hk).1]
+  unfold OMap.set
+  cases h : ((abs kf).get (normGroup g, k)).isSome
+  · simp only [Bool.false_eq_true, if_false]
+    unfold OMap.keys
+    simp only [List.filter_append, List.map_append, List.filter_cons, List.filter_nil]
+    by_cases hs : s = normGroup g
+    · subst hs; simp
+    · have : (normGroup g == s) = false := by simpa using (fun hh => hs hh.symm)
+      simp [this, hs]
+  · simp only [if_true]
+    unfold OMap.keys
+    simp only
+    generalize (abs kf).items = l
+    induction l with
+    | nil => rfl
+    | cons p ps ih =>
+      simp only [replaceFirst]
+      cases hp : p.1 == (normGroup g, k)
+      · simp only [Bool.false_eq_true, if_false, List.filter_cons]
+        cases (p.1.1 == s) <;> simp [ih]
+      · simp only [if_true, List.filter_cons]
+        have := eq_of_beq hp
+        rw [this]
+        cases (normGroup g == s) <;> simp [this]
+
+/-- a defaulted get returns the default exactly when the key is absent -/
+def getStringDef (kf : KeyFile) (g k : Option Str) (d : Option Str) : Err × Option Str :=
+  match getString kf g k with
+  | .ok v => (.success, v)
+  | .error .nokey => (.nokey, d)
+  | .error e => (e, none)
+
+theorem C11_default (kf : KeyFile) (g : Option Str) (k : Str) (d : Option Str) (hk : k ≠ []) :
+    getStringDef kf g (some k) d =
+      match (abs kf).get (normGroup g, k) with
+      | some v => (.success, v)
+      | none => (.nokey, d) := by
+  unfold getStringDef
+  rw [C11_get kf g k hk]
+  cases (abs kf).get (normGroup g, k) <;> rfl
+
+/-! ### operation sequences -/
+
+inductive Op where
+  | set (g : Option Str) (k : Str) (v : Str)
+  | get (g : Option Str) (k : Str)
+  | getDef (g : Option Str) (k : Str) (d : Option Str)
+  | keys (g : Option Str)
+  | sections
+
+inductive Out where
+  | code (e : Err)
+  | text (e : Err) (v : Option Str)
+  | list (e : Err) (l : List Str)
+  deriving DecidableEq
+
+/-- a step of the model -/
+def stepModel (kf : KeyFile) : Op → KeyFile × Out
+  | .set g k v => let r := setValue kf g (some k) (.ok v); (r.1, .code r.2)
+  | .get g k => (kf, match getString kf g (some k) with
+      | .ok v => .text .success v
+      | .error e => .text e none)
+  | .getDef g k d => (kf, let r := getStringDef kf g (some k) d; .text r.1 r.2)
+  | .keys g => (kf, match getKeys kf g with
+      | .ok l => .list .success l
+      | .error e => .list e [])
+  | .sections => (kf, match getGroups kf with
+      | .ok l => .list .success l
+      | .error e => .list e [])
+
+/-- a step of the reference (keys are non-empty: calls with an empty key are refused, `C11_refused`) -/
+def stepSpec (m : OMap) : Op → OMap × Out
+  | .set g k v => (m.set (normGroup g, k) v, .code .success)
+  | .get g k => (m, match m.get (normGroup g, k) with
+      | some v => .text .success v
+      | none => .text .nokey none)
+  | .getDef g k d => (m, match m.get (normGroup g, k) with
+      | some v => .text .success v
+      | none => .text .nokey d)
+  | .keys g => (m, if (m.keys (rawGroup g)).isEmpty then .list .nokey [] else .list .success (m.keys (rawGroup g)))
+  | .sections => (m, if m.sections.isEmpty then .list .nogroup [] else .list .success m.sectionList)
+
+def Op.valid : Op → Prop
+  | .set _ k _ => k ≠ []
+  | .get _ k => k ≠ []
+  | .getDef _ k _ => k ≠ []
+  | _ => True
+
+theorem C11_step (kf : KeyFile) (op : Op) (h : op.valid) :
+    abs (stepModel kf op).1 = (stepSpec (abs kf) op).1 ∧ (stepModel kf op).2 = (stepSpec (abs kf) op).2 := by
+  cases op with
+  | set g k v =>
+    have := C11_set kf g k v h
+    exact ⟨this.1, by simp [stepModel, stepSpec, this.2]⟩
+  | get g k =>
+    refine ⟨rfl, ?_⟩
+    simp only [stepModel, stepSpec]
+    rw [C11_get kf g k h]
+    cases (abs kf).get (normGroup g, k) <;> rfl
+  | getDef g k d =>
+    refine ⟨rfl, ?_⟩
+    simp only [stepModel, stepSpec]
+    rw [C11_default kf g k d h]
+    cases (abs kf).get (normGroup g, k) <;> rfl
+  | keys g =>
+    refine ⟨rfl, ?_⟩
+    simp only [stepModel, stepSpec]
+    rw [C11_keys]
+    cases ((abs kf).keys (rawGroup g)).isEmpty <;> rfl
+  | sections =>
+    refine ⟨rfl, ?_⟩
+    simp only [stepModel, stepSpec]
+    rw [C11_groups]
+    cases (abs kf).sections.isEmpty <;> rfl
+
+def runModel (kf : KeyFile) : List Op → KeyFile × List Out
+  | [] => (kf, [])
+  | op :: ops => let r := stepModel kf op; let rest := runModel r.1 ops; (rest.1, r.2 :: rest.2)
+
+def runSpec (m : OMap) : List Op → OMap × List Out
+  | [] => (m, [])
+  | op :: ops => let r := stepSpec m op; let rest := runSpec r.1 ops; (rest.1, r.2 :: rest.2)
+
+/-- every operation sequence, of any length, from any object (fresh or parsed): all outputs equal
+    those of the reference ordered map, and the final states correspond -/
+theorem C11_refines (kf : KeyFile) (ops : List Op) (h : ∀ op ∈ ops, op.valid) :
+    abs (runModel kf ops).1 = (runSpec (abs kf) ops).1 ∧ (runModel kf ops).2 = (runSpec (abs kf) ops).2 := by
+  induction ops generalizing kf with
+  | nil => exact ⟨rfl, rfl⟩
+  | cons op ops ih =>
+    have hs := C11_step kf op (h op List.mem_cons_self)
+    have hr := ih (stepModel kf op).1 (fun o ho => h o (List.mem_cons_of_mem _ ho))
+    simp only [runModel, runSpec]
+    rw [hs.1] at hr
+    exact ⟨hr.1, by rw [hs.2, hr.2]⟩
+
+/-- the three starting points correspond to the empty map (`econf_newKeyFile` has the group-less
+    pseudo section registered already) -/
+theorem C11_fresh : (abs {}).items = [] ∧ (abs (newKeyFile 0x3D 0x23)).items = [] ∧ (abs newIniFile).items = [] ∧
+    (abs (newKeyFile 0x3D 0x23)).sectionList = [] := by decide
+
+/-- non-vacuity: creation, overwrite, lookup miss and growth on a concrete sequence -/
+example :
+    let A : Str := [0x41]; let x : Str := [0x78]; let y : Str := [0x79]
+    let ops := [Op.set (some A) x [0x31], .set none y [0x32], .set (some (LBR :: A ++ [RBR])) x [0x33], .get (some A) x,
+                .get (some A) y, .keys (some A), .sections]
+    (runModel newIniFile ops).2 =
+      [.code .success, .code .success, .code .success, .text .success (some [0x33]), .text .nokey none,
+       .list .success [x], .list .success [A]] := by decide
+
 end Econf
